@@ -269,7 +269,7 @@ def gen_adv_case(rng, with_error=False, with_password=False):
                 ret = [1]                                   # schedule_screen does not redraw by itself
             elif rng.random() < 0.06:
                 ret = [1]                                   # a second render signal: the second prompt is refused
-            if rng.random() < 0.04:
+            if rng.random() < 0.10:
                 cmds, ret = [[10]], [4, lib.cps("q")]       # force_quit(), then the quit key: the quit dialog is not rendered
             inputs.append((key, cmds, ret))
         specs.append(spec(inputs=inputs, default=([], None if rng.random() < 0.85 else [3]),
